@@ -13,7 +13,7 @@ from rv.readers.reader import read_sunvox_file
 
 PROPERTY = "C08"
 LEVEL = "exploration"
-BUDGET_S = {"quick": 60, "thorough": 900}
+BUDGET_S = {"quick": 60, "thorough": 3600}
 RULE = (
     "one evaluation = one seeded history of connect/disconnect requests (C07 alphabet, incl. freed slots in the middle, "
     "cycles, self loops, fan-in/out, output links) with 1-4 save -> restart -> load boundaries; at each restart the four "
